@@ -144,9 +144,8 @@ func CheckTimeValidity(availTimeS, nowS, timeShiftBufferDepthS, availabilityTime
 	}
 
 	// Valid interval [nowRel-cfg.tsbd, nowRel) where end-time must be used
-	if availabilityTimeOffsetS > 0 {
-		availTimeS -= availabilityTimeOffsetS
-	}
+	// A negative offset makes the segment available later, as the MPD announces
+	availTimeS -= availabilityTimeOffsetS
 	// Times are whole milliseconds, but as float64 seconds they carry rounding errors of the order 1e-7,
 	// so a segment must not be refused at exactly its availability time.
 	if availTimeS-nowS > 1e-6 {
